@@ -253,6 +253,7 @@ PRE = [
     ("doccomment", "/** d\n * e\n */\n", 3, None),
     ("decl-continued", "int k = 1 + \\\n 2;\n", 2, None),
     ("crlf", "int w;\r\n", 1, None),
+    ("crlf-blank2", "\r\n\r\n", 2, None),
     ("line", '#line 100 "g.h"\n', None, (100, "g.h")),
     ("hash", '# 7 "dir/h.h" 2\n', None, (7, "dir/h.h")),
     ("ml-decl", "void fn(int a,\n        int b);\n", 2, None),
